@@ -21,6 +21,10 @@ def scenarios(tier):
                 continue   # poll's unit is the millisecond
             for where in ("thread", "co"):
                 scs.append({"call": call, "t_us": t, "where": where, "src": "grid"})
+        if not thorough and call in ("poll", "select"):
+            # slack that grows with the timeout (deviation nominal_slices of TimedWait.tla) only shows on a
+            # second-scale request: one per sliced call in the quick tier too
+            scs.append({"call": call, "t_us": 1000000, "where": "co", "src": "grid"})
     for call, inv in (("nanosleep", "neg_sec"), ("nanosleep", "neg_nsec"), ("nanosleep", "big_nsec"), ("select", "neg_sec"),
                       ("select", "neg_usec"), ("cond", "neg_nsec"), ("cond", "big_nsec")):
         for where in ("thread", "co"):
@@ -57,6 +61,7 @@ def run(pid, tier):
         return v.finish(cov, assumptions=["order-based: when the first sleeper of a loop wakes, every other sleeping task of that loop must already have "
                                           "entered its sleep (N <= max_size)", "hooked usleep is called through open_coroutine_core::syscall, not through the interposed dylib"])
     mc_runs("TimedWait", [("MC_TimedWait.cfg", None), ("MC_TimedWait_select_us_as_ms.cfg", "NotLate"),
+                          ("MC_TimedWait_nominal_slices.cfg", "NotLate"),
                           ("MC_TimedWait_select_negative_abort.cfg", "InvalidRejected")], tier, cov)
     scs = scenarios(tier)
     tpath, info = one_round(bindir, scs, wd, "")
